@@ -1028,6 +1028,14 @@ fn wire(r: &mut R, prop: &str) {
                     let out = des_op(r, des, &bs);
                     r.h.check(out == Out::Err, || format!("{} accepts appended bytes on R255", des));
                 }
+                if des.starts_with("des_svec_") {
+                    for pad in [vec![0u8], vec![7, 7, 7]] {
+                        for bs in [crate::p_wire::pad_first_inner_item(&bytes, &pad), crate::p_wire::pad_last_inner_item(&bytes, &pad)].into_iter().flatten() {
+                            let out = des_op(r, des, &bs);
+                            r.h.check(out == Out::Err, || format!("{} accepts trailing bytes inside a nested item on R255", des));
+                        }
+                    }
+                }
                 for kk in 1..=4usize {
                     if kk <= bytes.len() {
                         let out = des_op(r, des, &bytes[..bytes.len() - kk]);
@@ -1294,6 +1302,18 @@ fn c19(r: &mut R) {
             Err(_) => Out::Err,
         });
         r.h.check(!acc, || "mutated proof accepted on R255".to_string());
+        for pos in [0, nn / 2, nn - 1] {
+            let p2 = rebuild(&pf, |_, _, sh, _, _, _| sh[pos] = sh[pos].add(&one));
+            let mut acc = true;
+            r.case("check_proof", vec![ves(&s.gens), ve(vh::pk_element(&s.pk)), vproof(&p2), vcts(&es), vcts(&eps), b(&label)], || match sh.check_proof(&p2, &es, &eps, &label) {
+                Ok(x) => {
+                    acc = x;
+                    Out::Ok(Val::Bool(x))
+                }
+                Err(_) => Out::Err,
+            });
+            r.h.check(!acc, || format!("proof with a changed chain response at position {} accepted on R255 N={}", pos, nn));
+        }
         // joint decryption of lists with two trustees
         let sks = [x_of(&r.rx()), x_of(&r.rx())];
         let kms: Vec<KeymakerV<C>> = sks.iter().map(|x| KeymakerV::from_sk(PrivateKey::from(x, &ctx), &ctx)).collect();
